@@ -208,6 +208,8 @@ def _same_num(a, b, tol=None, rel=False):
     b = np.asarray(b, dtype=float)
     if a.shape != b.shape:
         return f'shape {a.shape} instead of {b.shape}'
+    if np.any(np.isposinf(b)):      # UNDEFINED in the spec (see World.undef): nothing is demanded of these entries
+        a, b = np.where(np.isposinf(b), 0.0, a), np.where(np.isposinf(b), 0.0, b)
     na, nb = np.isnan(a), np.isnan(b)
     if not np.array_equal(na, nb):
         w = np.argwhere(na != nb)[0]
@@ -246,6 +248,7 @@ def _plain(v):
 # the world of one case: plain arrays (spec side) and rsatoolbox objects (real side)
 # =====================================================================================================
 N_BASIS = {'fixed': 1, 'weighted': 2, 'select': 3, 'interpolate': 3}
+INT_TYPES = ('int64', 'int32', 'int16', 'uint8')
 
 
 class World:
@@ -264,6 +267,10 @@ class World:
         self.rgroups = sorted(set(self.rlab), key=str)
         self.pgroups = sorted(set(self.plab), key=str)
         self.method = case['method']
+        # integer-typed dissimilarities live on a coarse grid: on a fold with 3 pairs a vector can be constant, its correlation
+        # (0/0) is not defined by the property.  The spec marks such values +inf = 'undefined, nothing demanded' (integer cases
+        # only; for float data a NaN of the spec inside a usable resample stays a demand)
+        self.undef = np.inf if case.get('dtype') in INT_TYPES else np.nan
         truth = rs.rand(self.n_pair) + 0.2
         D = truth[None] * (0.5 + rs.rand(self.n_rdm, 1)) + 0.6 * rs.rand(self.n_rdm, self.n_pair)
         # sweep dimensions (absent from a case = the plain float64 / list form):
@@ -325,7 +332,7 @@ class World:
     def _typed(self, A, scale):
         """(values as float64 for the spec, array handed to the library) of the generated dissimilarities A"""
         dt = self.case.get('dtype')
-        if dt in ('int64', 'int32', 'int16', 'uint8'):
+        if dt in INT_TYPES:
             q = np.round(A * (30.0 if dt == 'uint8' else 1000.0)) + 1.0     # uint8: 1 .. ~200, else 1 .. ~7000 (fits int16)
             assert float(np.max(q)) <= (255.0 if dt == 'uint8' else 32767.0)
             real = q.astype(dt)
@@ -391,7 +398,11 @@ class World:
         idx = self.pairs(C)
         if len(R) == 0:
             return float('nan')
-        return float(np.mean([_sim(predvec[idx], self.D[r, idx], self.method) for r in R]))
+        return self._def(np.mean([_sim(predvec[idx], self.D[r, idx], self.method) for r in R]))
+
+    def _def(self, v):
+        v = float(v)
+        return self.undef if np.isnan(v) else v
 
     def boot_nc(self, R, C, by_group=True):
         """(lower, upper) of the resample (R, C); RDM groups = labels of the requested descriptor (else every RDM alone)"""
@@ -410,7 +421,7 @@ class World:
             trp = _pool(X[tr], self.method)
             lo.append(np.mean([_sim(trp, X[k], self.method) for k in te]))
             hi.append(np.mean([_sim(allp, X[k], self.method) for k in te]))
-        return float(np.mean(lo)), float(np.mean(hi))
+        return self._def(np.mean(lo)), self._def(np.mean(hi))
 
     def cv_nc(self, R_all, C_all, folds):
         """folds: dicts with R_te, C_te, R_ce"""
@@ -423,7 +434,7 @@ class World:
             cep = _pool(self.D[f['R_ce']][:, idx], self.method)
             lo.append(np.mean([_sim(cep, self.D[r, idx], self.method) for r in f['R_te']]))
             hi.append(np.mean([_sim(full[idx], self.D[r, idx], self.method) for r in f['R_te']]))
-        return float(np.mean(lo)), float(np.mean(hi))
+        return self._def(np.mean(lo)), self._def(np.mean(hi))
 
     def obj(self, R, C):
         """an RDMs object holding the resample (R, C), built with the constructor from the spec arrays (an INPUT)"""
@@ -896,6 +907,9 @@ def _eval_folds(W, o, sides_list, fit_desc, fits, cursor, where):
                 theta = _spy_theta(kind, nb, train_vals, s['L_tr'], W.method, W.pd, fit_desc[j])
             elif kind == 'select':
                 sc = [W.evaluate(W.B[j][c], s['R_tr'], s['C_tr']) for c in range(nb)]
+                if np.any(np.isposinf(sc)):         # a candidate with an undefined score (integer grid): no demand on the choice
+                    sc = [(-np.inf if np.isposinf(x) else x) for x in sc]
+                    sc[int(v['theta'])] = np.inf
                 theta = int(np.argmax(sc))
                 srt = np.sort(sc)
                 if srt[-1] - srt[-2] < 1e-7:
@@ -1545,7 +1559,7 @@ def tier_c(run, thorough):
     def mk_dual(i, method, seed, **kw):
         shape, kp, kr = (('grouped-both', 1, 1), ('cv-identity', 2, 1), ('cv-grouped', 1, 2), ('cv-grouped', 2, 2))[i % 4]
         fitter, ms = BCFIT[i % 3]
-        return _case(shape, ms, method, seed, routine='eval_dual_bootstrap', k_pattern=kp, k_rdm=kr, N=N + (2 if kp == 1 else 0),
+        return _case(shape, ms, method, seed, routine='eval_dual_bootstrap', k_pattern=kp, k_rdm=kr, N=N,
                      n_cv=2 + (i % 5 == 0), use_correction=bool(i % 3), fitter=fitter, **kw)
     _sweeps(sw, thorough, sw_seeds, mk_dual, quick_half=1)
     for seed in sw_seeds:
